@@ -15,7 +15,7 @@ for id in $ids; do
     if [ -n "$(git -C /repo status --porcelain)" ]; then echo "/repo dirty"; exit 2; fi
     git -C /repo apply "$PWD/seeded/$id/patch.diff" || { echo -e "$id\t$p\tPATCH-FAILS" >> $out; continue; }
     log=$(mktemp)
-    timeout 1500 ./simcheck run $p --tier quick > $log 2>&1; rc=$?
+    SIMCHECK_EVIDENCE_DIR=$(mktemp -d) timeout 1500 ./simcheck run $p --tier quick > $log 2>&1; rc=$?
     git -C /repo checkout -- .
     classes=$(grep "violation class" $log | sed 's/.*violation class "\([^"]*\)": \([0-9]*\) runs/\1(\2)/' | head -6 | tr '\n' ' ')
     echo -e "$id\t$p\texit=$rc\t$classes" >> $out
